@@ -33,5 +33,71 @@ class IE(enum.IntEnum):
 ALL[IE] = ('%s.IE' % __name__, 'int')
 
 
+# IntEnum-style classes of the other bases: Enum mix-ins whose members are instances of the base type
+class EList(list, enum.Enum):
+    A = [1]
+    B = [1, 'a']
+
+
+class ETuple(tuple, enum.Enum):
+    A = (1,)
+    B = (1, 'a')
+
+
+class ESet(set, enum.Enum):
+    A = {1}
+
+
+class EDict(dict, enum.Enum):
+    A = {'a': 1}
+    B = {'a': 1, 'b': [1, 2]}
+
+
+class EStr(str, enum.Enum):
+    A = 'a'
+    B = 'word ' * 12
+    C = ''
+
+
+class EBytes(bytes, enum.Enum):
+    A = b'a'
+    B = b'bytes and more bytes ' * 3
+
+
+class EFloat(float, enum.Enum):
+    A = 1.5
+    B = -0.0
+
+
+ENUM_MIXINS = {EList: 'list', ETuple: 'tuple', ESet: 'set', EDict: 'dict', EStr: 'str', EBytes: 'bytes', EFloat: 'float'}
+for _c, _k in ENUM_MIXINS.items():
+    ALL[_c] = ('%s.%s' % (__name__, _c.__name__), _k)
+
+
+# members whose printed form relies on the BASE constructor converting its argument, which calling an Enum class
+# (a lookup by value) does not do: no argument for an empty container, a list for a frozenset, 'inf' for a float
+class EListEmpty(list, enum.Enum):
+    E = []
+
+
+class ETupleEmpty(tuple, enum.Enum):
+    E = ()
+
+
+class EDictEmpty(dict, enum.Enum):
+    E = {}
+
+
+class EFrozen(frozenset, enum.Enum):
+    A = frozenset([1])
+
+
+class EFloatInf(float, enum.Enum):
+    I = float('inf')
+
+
+CONVERTING_FORM_MEMBERS = [EListEmpty.E, ETupleEmpty.E, EDictEmpty.E, EFrozen.A, EFloatInf.I]
+
+
 def of_kind(kind):
     return [c for c, (q, k) in ALL.items() if k == kind]
